@@ -14,11 +14,15 @@ lemmas are proved (Properties/C10.lean); the RUNTIME part is validated here:
             with a DIRECT Python evaluation of the same C++ index expressions on random parameters;
   * zoomshift  the elements the REAL zoom_shift reads at every output position (support of the outputs for one-hot
             inputs, prefilter off; orders 0 and 5 by a valid direct call of the entry point) against the model's index list.
+  * round 3 (harness/props/c10_misc.py): histogram, lbp map, bbox, relabel / remove_regions, distance_multi — `model2` cases
+            against a direct Python evaluation, `miscreal` cases against the results of the real binary.
 """
 from __future__ import annotations
 import inspect, json
 import numpy as np
 from .. import core, iso, catalog, specs
+from . import c10_misc
+from . import c10_surf
 
 ID = 'C10'
 LEVEL = 'other'
@@ -26,7 +30,7 @@ RULE = ('corpus; sweep = every public function with native code behind it x vali
         'dtypes, 7 layouts, axis lengths 1..40, structuring elements/kernels/templates smaller than, equal to and larger than the image), each '
         'under ASan and twice with differently filled freed heap; filter = one-hot probing of the filter iterator against the Lean closed form; '
         'model = executable bounds checkers on random parameters; model2 = round-2 index models against a direct Python evaluation of the C++ index '
-        'expressions; zoomshift = elements read by the real zoom_shift (one-hot probing) against the model. Non-trivial = the call reached native code and returned a value; '
+        'expressions; zoomshift = elements read by the real zoom_shift (one-hot probing) against the model; miscreal = results of the round-3 models against the real binary. Non-trivial = the call reached native code and returned a value; '
         'distinct = distinct (function, argument specs).')
 ASSUMPTIONS = ['documented domain: at least one element per axis, supported dtypes (bool, 8 integer types, float32/64), neighbourhoods of the '
                'rank of the image, labels non-negative, scalar parameters in range, finite values',
@@ -499,14 +503,22 @@ def _model2_line_and_direct(case):
         return f"c10 kind=thin rows={q['rows']} cols={q['cols']} img={_csv(q['img'])}", a, done, dict(frame=str(int(frame)))
     if w == 'cwnb':
         return (f"c10 kind=cwnb shape={_csv(q['shape'])} bshape={_csv(q['bshape'])}",) + _py_cwnb(q['shape'], q['bshape']) + ({},)
+    if w in c10_misc.KINDS:        # round 3: histogram, lbp map, bbox, relabel / remove_regions, distance_multi
+        return c10_misc.line_and_direct(w, q)
+    if w in c10_surf.KINDS:          # round 3 (B9 SURF)
+        return c10_surf.line_and_direct(w, q)
     raise core.Infra(f'unknown model2 kind {w}')
 
 
 def _eval_model2(case):
     line, acc, term, extra = _model2_line_and_direct(case)
     drv = core.drive([line])[0]
-    ok = all(0 <= i < n for i, n in acc) and term
-    want = dict(ok=str(int(ok)), n=str(len(acc)), term=str(int(term)), sum=str(sum(i for i, _ in acc)), **extra)
+    if acc is None:       # the direct evaluation returned the complete expected answer (accesses that are positions)
+        want, acc = dict(extra), [None] * int(extra['n'])
+        ok = want['ok'] == '1'
+    else:
+        ok = all(0 <= i < n for i, n in acc) and term
+        want = dict(ok=str(int(ok)), n=str(len(acc)), term=str(int(term)), sum=str(sum(i for i, _ in acc)), **extra)
     fnd = []
     bad = {k: (drv.get(k), v) for k, v in want.items() if drv.get(k) != v}
     if 'error' in drv or bad:
@@ -585,7 +597,8 @@ def evaluate(cases):
     for c in cases:
         k = c.get('kind', 'sweep')
         out.append(_eval_filter(c) if k == 'filter' else _eval_model(c) if k == 'model' else _eval_model2(c) if k == 'model2' else
-                   _eval_zoomshift_real(c) if k == 'zoomshift' else _eval_sweep(c))
+                   _eval_zoomshift_real(c) if k == 'zoomshift' else c10_misc.eval_real(c, SRC) if k == 'miscreal' else
+                   c10_surf.evaluate_real(c) if k == 'surfreal' else _eval_sweep(c))
     return out
 
 
@@ -760,6 +773,10 @@ def cases(rng, tier):
         # round 2 (appended last so that the random stream of the cases above is unchanged)
         out += _model2_cases(rng, dict(quick=600, thorough=6000, search=0)[tier])
         out += _zoomshift_cases(rng, dict(quick=120, thorough=1500, search=0)[tier])
+        # round 3 (appended last again)
+        out += c10_misc.model_cases(rng, dict(quick=300, thorough=3000, search=0)[tier])
+        out += c10_misc.real_cases(rng, dict(quick=150, thorough=1500, search=0)[tier])
+        out += c10_surf.cases(rng, tier)       # round 3 (B9 SURF), appended last: the stream above is unchanged
     return out
 
 
